@@ -300,6 +300,9 @@ func c09ForEach(w *fw.W, fn func(c *c09Case)) {
 					common.HexToHash("0x6162000000000000000000000000000000000000000000000000000000000040"), // short form, length 32
 					common.HexToHash("0x61620000000000000000000000000000000000000000000000000000000000fe"), // short form, length 127
 					common.HexToHash("0x6162000000000000000000000000000000000000000000000000000000000100"), // short form, bits above the length byte
+					common.HexToHash("0x6162000000000000000000000000000000000000000000000000000000000080"), // short form, length 64
+					common.HexToHash("0x61620000000000000000000000000000000000000000000000000000000000a2"), // short form, length 81
+					common.HexToHash("0x616200000000000000000000000000000000000000000000000000000000003e"), // short form, length 31 (valid)
 					common.BigToHash(big.NewInt(1)),  // long form, length 0
 					common.BigToHash(big.NewInt(3)),  // long form, length 1
 					common.BigToHash(big.NewInt(63)), // long form, length 31
@@ -323,7 +326,7 @@ func init() {
 		ID:        "C09",
 		Level:     "model_checking",
 		Technique: "complete enumeration of (storage word, offset, width) and (string length, content pattern, slot) products, each journaled by a generated program on the real interpreter (direct, DELEGATECALL, CALLCODE, static, value written just before), compared with a reference Solidity storage-layout decoder",
-		Rule: "value journal: 5 words x every (offset, width) in ([0,34] + {256, 2^64-1, 2^64, 2^256-1})^2 x 7 slots (small, 2^64, hashed, hashed with leading zero byte) x variants {direct, static, SSTORE-just-before, via DELEGATECALL, via CALLCODE with fresh store, static+DELEGATECALL}; reference journal: every length 0..130 x {distinct, leading zeros, all zero, trailing zero} x slots x variants + 7 invalid/unusual head words. The code account of the DELEGATECALL/CALLCODE variants holds complemented words at the same slots. Oracle: recorded bytes (by name and by slot) == reference decoder applied to the executing contract's storage at the journal step; invalid field/encoding => frame fails and nothing is recorded. non-trivial = distinct cases whose operands/encoding are valid (a value must be recorded)",
+		Rule: "value journal: 5 words x every (offset, width) in ([0,34] + {256, 2^64-1, 2^64, 2^256-1})^2 x 7 slots (small, 2^64, hashed, hashed with leading zero byte) x variants {direct, static, SSTORE-just-before, via DELEGATECALL, via CALLCODE with fresh store, static+DELEGATECALL}; reference journal: every length 0..130 x {distinct, leading zeros, all zero, trailing zero} x slots x variants + 10 invalid/unusual head words. The code account of the DELEGATECALL/CALLCODE variants holds complemented words at the same slots. Oracle: recorded bytes (by name and by slot) == reference decoder applied to the executing contract's storage at the journal step; invalid field/encoding => frame fails and nothing is recorded. non-trivial = distinct cases whose operands/encoding are valid (a value must be recorded)",
 		Assumptions: []string{"strings longer than 130 bytes and storage words outside the 5-word alphabet are not covered", "quick tier thins slots/words for the indirect variants (bounds in evidence)"},
 		Bounds: func(t string) map[string]any {
 			return map[string]any{"offset_width_values": 39, "string_lengths": "0..130", "slots": 7, "forks": map[string]int{"quick": 1, "thorough": 4}[t]}
@@ -347,7 +350,7 @@ func init() {
 				if sig != "" {
 					for i := 0; i < 4; i++ {
 						if s2, _, _ := c09Run(c); s2 != sig {
-							w.Notes = append(w.Notes, "HARNESS ERROR: C09 violation did not reproduce: "+c.Note)
+							w.Notes = append(w.Notes, "UNREPRODUCED: C09 violation did not reproduce: "+c.Note)
 							return
 						}
 					}
